@@ -1283,7 +1283,16 @@ func (t *twin) genOpts() qgen.GenOpts {
 func (t *twin) queries() {
 	o := t.genOpts()
 	for i := 0; i < t.p.Queries && !t.stop; i++ {
-		t.checkQuery(qgen.GenQuery(t.rng, o))
+		q := qgen.GenQuery(t.rng, o)
+		// every sixth query also names 1-3 (known, possibly deleted) documents with the docID argument:
+		// an index-served plan walks index entries, not the docID prefixes, and must still honour it
+		if !q.FromG && len(t.docs) > 0 && t.rng.IntN(6) == 0 {
+			for k := 1 + t.rng.IntN(3); k > 0; k-- {
+				q.DocIDs = append(q.DocIDs, t.docs[t.rng.IntN(len(t.docs))])
+			}
+			t.r.Count("queries_with_docid_argument", 1)
+		}
+		t.checkQuery(q)
 	}
 }
 
@@ -1971,7 +1980,7 @@ func cellFloors() []string {
 	return out
 }
 
-var twinFloors = append(cellFloors(), []string{"index_served_queries", "nontrivial_pairs", "order_served_by_index", "structural_checks", "structural_entries_compared",
+var twinFloors = append(cellFloors(), []string{"index_served_queries", "queries_with_docid_argument", "nontrivial_pairs", "order_served_by_index", "structural_checks", "structural_entries_compared",
 	"remote_merges", "unique_legit_rejections", "unique_invariant_checks", "sliced_queries_total_order",
 	"op/create-api", "op/create-gql", "op/create-many", "op/update-api", "op/update-gql", "op/update-filter-api", "op/update-filter-gql",
 	"op/delete-api", "op/delete-gql", "op/delete-filter-api", "op/delete-filter-gql", "op/remote-create", "op/remote-update", "op/remote-delete",
